@@ -76,6 +76,9 @@ check_common_attrs = Unit(
         # docs: rank is an integer 0..7, only on pointers, exclusive with dimension
         "implies(old(ast).attrs['rank'], isint(ast.attrs['rank']) and not isbool(ast.attrs['rank']) and 0 <= ast.attrs['rank'] "
         "and ast.attrs['rank'] <= 7 and ast.is_indirect() > 0)",
+        # whatever was given (an empty '+rank()' included) ends as an integer 0..7 or is rejected: never a string
+        "implies(isstr(old(ast).attrs['rank']) or isint(old(ast).attrs['rank']), isint(ast.attrs['rank']) "
+        "and 0 <= ast.attrs['rank'] and ast.attrs['rank'] <= 7)",
         "implies(old(ast).attrs['dimension'], not old(ast).attrs['rank'] and ast.is_indirect() > 0 "
         "and not old(ast).attrs['value'] and isstr(old(ast).attrs['dimension']))",
         "implies(not isnone(old(ast).attrs['owner']), old(ast).attrs['owner'] in ['caller', 'library'])",
